@@ -64,6 +64,7 @@ def gen(rng, tier):
     else:
         sc['n'] = rng.randint(1, 9)
         sc['data'] = world.gen_trace(rng, vars_, sc['n'])
+        common.add_clock(rng, sc)
     return sc
 
 
@@ -112,6 +113,9 @@ def eq_samples(a, b):
 
 def run(sc):
     r = Result()
+    r.faults.update(sc.get('fired') or {})
+    if sc.get('nbatches', 1) > 1:
+        r.faults['batch_split'] += sc['nbatches'] - 1
     dense = sc['kind'].startswith('ct')
     names = names_of(sc)
     if not common.ref_defined([a for _, a in names], dense, sc['signals'] if dense else sc['data'], sc.get('n')):
@@ -162,14 +166,14 @@ def run(sc):
                         nontriv = True
             else:
                 n_, data = sc['n'], sc['data']
-                M.dt_evaluate(parent, list(range(n_)), data)
+                M.dt_evaluate(parent, common.stamps_of(sc), data)
                 for v in used:
                     r.evals += 1
                     g = read(v)
                     if not (isinstance(g, list) and M.list_eq(g, data[v])):
                         r.violate('input-value', var=v, got=g, want=data[v], spec=pd)
                 for n, mon in alone:
-                    want = [p[1] for p in M.dt_evaluate(mon, list(range(n_)), data)]
+                    want = [p[1] for p in M.dt_evaluate(mon, common.stamps_of(sc), data)]
                     got = read(n)
                     r.evals += 1
                     ok = isinstance(got, list) and len(got) == n_ and all(eqn(a, b) for a, b in zip(got, want))
@@ -192,7 +196,7 @@ def run(sc):
                 if dense:
                     M.ct_update(parent, rd, sc['vars'])
                 else:
-                    M.dt_update(parent, rd, [(v, sc['data'][v][rd]) for v in sc['vars']])
+                    M.dt_update(parent, common.stamps_of(sc)[rd], [(v, sc['data'][v][rd]) for v in sc['vars']])
                 d = M.state_digest(parent)
                 if d:
                     r.states.add(d)
@@ -206,7 +210,7 @@ def run(sc):
                     if dense:
                         want = M.ct_update(mon, rd, sc['vars'])
                     else:
-                        want = M.dt_update(mon, rd, [(v, sc['data'][v][rd]) for v in sc['vars']])
+                        want = M.dt_update(mon, common.stamps_of(sc)[rd], [(v, sc['data'][v][rd]) for v in sc['vars']])
                     got = read(n)
                     r.evals += 1
                     if not (eq_samples(got, want) if dense else eqn(got, want)):
